@@ -1,6 +1,9 @@
 """C04 — the event parser reports exactly what the WBXML bytes denote.
 
 1. proof: coq/Properties/Properties_C04.v (theorems over Model/Parser.v and Model/Spec.v) rebuilt and re-checked;
+2b. object reuse: sequences of documents on ONE WBXMLParser (numeric id -> string-table id, table -> no table, forced language ->
+   none, charset given -> absent, error -> good document, left-over code pages / nesting / current element, random pairs and
+   triples): every document must be reported as on a fresh parser, i.e. as the model (a pure function of the document) says;
 2. tie: the extracted model `parse_with` and the C (ASan+UBSan build of the current tree, content handlers
    registered through the public API) run on the same documents: the project's test corpus (turned into WBXML by
    the library's own converter), the three fuzz files, systematic documents (every table row of every language),
@@ -184,7 +187,18 @@ def run(ctx):
             elif k == "hard":
                 tree_hard.append({"kind": c["kind"], "forced": c["forced"], "meta": c["meta"], "wbxml": c["bytes"].hex() or "-",
                                   "c_tree": (a or "")[:2000], "model_tree": (m or "")[:2000]})
-    for cr in ccr + crashes0 + tcr:
+    # ---- object reuse: one WBXMLParser, several documents; the property is stated per document, whatever was parsed before ----
+    if getattr(ctx, "replay", None):
+        rp = json.load(open(ctx.replay))
+        seqs = [ps.replay_sequence(rp)] if "sequence" in rp else []
+    else:
+        seqs = ps.reuse_sequences(ctx.seed, T, cases, 400 if ctx.tier == "quick" else 6000)
+    reuse = ps.run_reuse(harness, driver, seqs) if seqs else {"documents": 0, "sequences": 0, "history_dependent": [], "model_disagreements": [],
+                                                              "accepted_must_fail": [], "crashes": [], "kinds": {}}
+    for v in reuse["history_dependent"][:3]:
+        concrete.append(dict(v, what="on a reused WBXMLParser the document is reported differently from the same document on a fresh "
+                                     "parser (and from the model's events for the document alone)"))
+    for cr in ccr + crashes0 + tcr + reuse["crashes"]:
         concrete.append({"kind": "crash-or-sanitizer-report", **cr})
 
     sample_idx = list(range(0, len(cases), max(1, len(cases) // 12)))[:12]
@@ -210,6 +224,11 @@ def run(ctx):
         "tree_builder_features": dict(tree_feats),
         "tree_builder_disagreements_hard": len(tree_hard),
         "tree_builder_disagreements_soft": tree_soft,
+        "reuse_sequences": reuse["sequences"],
+        "reuse_documents": reuse["documents"],
+        "reuse_history_dependent": len(reuse["history_dependent"]),
+        "reuse_model_disagreements": len(reuse["model_disagreements"]),
+        "reuse_input_distribution": dict(sorted(reuse["kinds"].items(), key=lambda kv: -kv[1])[:40]),
     })
 
     # ---- verdict ----------------------------------------------------------------------------------------
@@ -226,6 +245,10 @@ def run(ctx):
             ctx.violation("correspondence-broken", {"broken": "model Parser.v and the C disagree (events or OK/ERR); the C agrees with the "
                                                               "specification oracle on every generated well-formed document",
                                                     "first_cases": hard[:5], **{k: hard[0][k] for k in ("wbxml", "forced", "meta")}},
+                          found_input=False)
+        if reuse["model_disagreements"]:
+            ctx.violation("reuse-correspondence-broken", {"broken": "a document of a sequence on one parser object: the C (reused and fresh alike) "
+                                                                    "and the model disagree", "first_cases": reuse["model_disagreements"][:5]},
                           found_input=False)
         if tree_hard:
             ctx.violation("treebuild-correspondence-broken",
